@@ -1836,3 +1836,14 @@ PROPS["C10"]["rule"] += (" Content captured raw (configuration rv, which runs on
     "character of the partial capture), from str (character boundaries only), slice and reader. Model: Model.Raw.rawTop / "
     "Model.RawNested.rawSeqTop, rawMapTop / Model.RawStruct.rawStructTop on every prefix; specification: accepted, or an Eof-category error at "
     "the end of the prefix.")
+PROPS["C13"]["lean_targets"] = PROPS["C13"]["lean_targets"][:-1] + ["SJ.Props.C13Stream"] + PROPS["C13"]["lean_targets"][-1:]
+PROPS["C13"]["level_text"] += (" Streams of Values over a failing reader (Props/C13Stream.lean over Model/StreamFault.lean): c13_stream_io_once - once "
+    "next() has yielded the I/O error every further call, any number of them, yields None; c13_stream_error_once - the same after a parser "
+    "error other than the undelimited-scalar `trailing characters`; both from the failed flag (nextF_io_fails, nextF_err_fails, historyF_failed). "
+    "The model is tied by op sfault (every construction of the stream, persistent and one-shot faults).")
+PROPS["C19"]["lean_targets"] = PROPS["C19"]["lean_targets"][:-1] + ["SJ.Props.C19Seq"] + PROPS["C19"]["lean_targets"][-1:]
+PROPS["C19"]["level_text"] += (" Successive captures on one Deserializer (Props/C19Seq.lean over Model/RawSeq.lean): c19_seq_capture - every text "
+    "captured by any call of a run of Box::<RawValue>::deserialize(&mut de) calls that has not failed yet is exactly one value of the grammar, "
+    "non-empty, UTF-8 on byte sources, and sits in the input immediately before what that call leaves unread, preceded only by whitespace and by "
+    "what the earlier calls consumed (from Proofs.RawSpan.deRaw_sound, by induction over the calls). What a capture AFTER a failed call holds is "
+    "not modelled (echo) and is judged by the executable specification of op rawseq only.")
